@@ -32,6 +32,8 @@ REQS = [
     b"gemini://example.org/some/longer/path/page.gmi?q=1\r\n",
     b"titan://example.org/f.txt;size=0\r\n",
     b"titan://example.org/f.txt;size=11;mime=text/plain\r\nhello world",
+    "gemini://example.org/caf\u00e9/\u65e5\u672c?q=\u00fc\r\n".encode("utf-8"),          # stalls inside multi-byte characters
+    b"titan://example.org/b.bin;size=9;mime=application/octet-stream\r\n\xff\xfe\x00\x80\xc3\x28\xa0\xa1\xf5",  # binary body
 ]
 HORIZON = 3600.0
 
